@@ -259,8 +259,30 @@ C05Late(v, form, which) ==
                 IF t = which THEN <<[form |-> form, from |-> IF form = "te" THEN Router(v, t) ELSE "TARGET", delay_us |-> 3000000 + 150700]>>
                 ELSE IF t = 4 THEN <<[form |-> "synack", delay_us |-> 800300]>>
                 ELSE <<[form |-> "te", from |-> Router(v, t), delay_us |-> 20100 * t]>>])]
+\* replies that the receiver handles while the sender is still inside the write of their probe (eager schedule class), one of them
+\* duplicated 377 ms later: the hop's RTT is the first reply's (0 on the virtual clock), never the duplicate's
+C05Eager(v, dupAt) ==
+    [variant |-> v, strict |-> TRUE, min |-> 1, max |-> 4, timeout_ms |-> 3000, delay_ms |-> 250, eager |-> TRUE,
+     ipid_base |-> 41821, echo_base |-> 40000, seq_base32 |-> <<4660, 22136>>, isn32 |-> <<4660, 22136>>, sack_perm |-> TRUE, sack_ts |-> TRUE,
+     id |-> "C05/eager/" \o v \o "/dup" \o ToString(dupAt), label |-> v \o "/eager/dup" \o ToString(dupAt),
+     path |-> PathOf([t \in 1..4 |->
+                IF t = 4 THEN <<[form |-> DestForm1(v), delay_us |-> 0, dup |-> IF dupAt = 4 THEN 1 ELSE 0, dup_us |-> 377000]>>
+                ELSE <<[form |-> "te", from |-> Router(v, t), delay_us |-> 0, dup |-> IF dupAt = t THEN 1 ELSE 0, dup_us |-> 377000]>>])]
+\* SACK: the first reply accepted for the destination TTL is a duplicate ACK whose blocks lie on both sides of the 2^32 wrap
+\* (isn + 4 = 2^32 - 1, isn + 6 = 1): it answers the LOWEST relative block (TTL 4, RTT 601.3 ms), not the numerically smallest edge
+C05SackWrap(extra, desc, b) ==
+    [variant |-> "sack", strict |-> FALSE, min |-> 1, max |-> 6, timeout_ms |-> 3000, delay_ms |-> 250,
+     ipid_base |-> 41821, echo_base |-> 40000, seq_base32 |-> b.seq_base, isn32 |-> b.isn, sack_perm |-> TRUE, sack_ts |-> FALSE,
+     id |-> "C05/sackwrap/" \o b.name \o "/" \o ToJson(extra) \o (IF desc THEN "d" ELSE "a"), label |-> "sack/blocks_across_wrap/" \o b.name \o "/" \o ToString(Len(extra)),
+     path |-> PathOf([t \in 1..6 |->
+                IF t = 4 THEN <<[form |-> "sack", delay_us |-> 601300, extra |-> extra, desc |-> desc]>>
+                ELSE IF t = 5 THEN <<>>
+                ELSE IF t = 6 THEN <<[form |-> "sack", delay_us |-> 450000, extra |-> <<4>>, desc |-> desc]>>
+                ELSE <<[form |-> "te", from |-> Router("sack", t), delay_us |-> 7300]>>])]
 C05All(u) == { C05Scen(v, TRUE, ds, du, dd) : v \in Variants, ds \in [1..3 -> DelaySet], du \in 0..4, dd \in {9100, 601300} }
              \cup { C05Late(v, f, w) : v \in {"tcp", "tcp_paris"}, f \in {"synack", "rstack", "rst", "te"}, w \in {2, 3} }
+             \cup { C05Eager(v, du) : v \in Variants, du \in 0..4 }
+             \cup { C05SackWrap(x, d, b) : x \in {<<6>>, <<5, 6>>, <<>>}, d \in BOOLEAN, b \in {bb \in Bases : bb.name \in {"wrap5", "mid", "wrap"}} }
 
 ---------------------------------------------------------------------------
 (***************************************************************************)
@@ -278,7 +300,7 @@ C06Dest(v, b, dt, dd) ==
      id |-> "C06/dest/" \o v \o "/" \o b.name \o "/" \o ToString(dt) \o "/" \o ToString(dd), label |-> v \o "/stop_after_dest",
      path |-> PathOf([t \in 1..8 |-> IF t >= dt THEN <<Dest(v, dd)>> ELSE <<TE(v, t, 2000)>>])]
 C06All(u) == { C06Full(v, b, r[1], r[2]) : v \in Variants, b \in Bases, r \in {<<1, 255>>, <<200, 255>>, <<1, 30>>} }
-          \cup { C06Dest(v, b, dt, dd) : v \in Variants, b \in {BaseMid}, dt \in {1, 2, 5, 8}, dd \in {500, 29000, 31000, 95000} }
+          \cup { C06Dest(v, b, dt, dd) : v \in Variants, b \in Bases, dt \in {1, 2, 5, 8}, dd \in {500, 29000, 31000, 95000} }
 
 ---------------------------------------------------------------------------
 (***************************************************************************)
